@@ -6,6 +6,7 @@ import (
 	"sort"
 	"strconv"
 	"strings"
+	"sync"
 
 	"github.com/ohler55/slip"
 
@@ -175,6 +176,9 @@ func (c *Case) features(kind string) string {
 	if sp.fam == "two" && (c.T1 == "string") != (c.T2 == "string") {
 		n = append(n, "string-vs-nonstring")
 	}
+	if sp.fam == "two" && (c.T1 == "octets") != (c.T2 == "octets") {
+		n = append(n, "octets-vs-nonoctets")
+	}
 	if t, ok := tests[c.Test]; ok && !t.equiv && sp.fam != "quant" && strings.Contains(c.kwSig(), "test") {
 		n = append(n, "order-test")
 	}
@@ -231,9 +235,16 @@ func (c *Case) source() string {
 	if c.T3 != "" {
 		b.WriteString(" (s3 " + c.seq3().lisp() + ")")
 	}
-	b.WriteString(") (list (multiple-value-list ")
+	// bystanders: a second, separately built sequence with the elements of s1
+	// and a copy-seq of s1 taken before the call; neither may change
+	if c.T1 != "" {
+		b.WriteString(" (b2 " + c.seq1().lisp() + ")")
+	} else {
+		b.WriteString(" (b2 nil)")
+	}
+	b.WriteString(") (let ((b1 (copy-seq s1))) (list (multiple-value-list ")
 	b.WriteString(c.call())
-	b.WriteString(") s1 s2))")
+	b.WriteString(") s1 s2 b1 b2)))")
 	return b.String()
 }
 
@@ -356,9 +367,9 @@ func judge(c *Case) (fails []failure, src, got string) {
 		}
 		return []failure{{k, fmt.Sprintf("%s => %s; the language defines %s", src, err, want)}}, src, err.String()
 	}
-	got = sl.Show(res)
+	got = render(res)
 	top, _ := res.(slip.List)
-	if len(top) != 3 {
+	if len(top) != 5 {
 		return []failure{{"shape", fmt.Sprintf("%s => %s", src, got)}}, src, got
 	}
 	vals, _ := top[0].(slip.List)
@@ -366,10 +377,10 @@ func judge(c *Case) (fails []failure, src, got string) {
 	if 0 < len(vals) {
 		primary = vals[0]
 	}
-	pshow := sl.Show(primary)
+	pshow := render(primary)
 	if len(vals) != 1 {
 		// every function under observation returns exactly one value
-		fails = append(fails, failure{"value-count", fmt.Sprintf("%s => %d values %s; the language defines one value", src, len(vals), sl.Show(top[0]))})
+		fails = append(fails, failure{"value-count", fmt.Sprintf("%s => %d values %s; the language defines one value", src, len(vals), render(top[0]))})
 	}
 	wantShow := ex.show
 	switch {
@@ -410,7 +421,7 @@ func judge(c *Case) (fails []failure, src, got string) {
 		if want == "" {
 			continue
 		}
-		after := sl.Show(top[1+k])
+		after := render(top[1+k])
 		if want == "=" {
 			if after != wantShow {
 				fails = append(fails, failure{"input-not-updated", fmt.Sprintf("%s: sequence-%d is %s after the call, the language defines that it is modified to %s", src, k+1, after, wantShow)})
@@ -421,6 +432,15 @@ func judge(c *Case) (fails []failure, src, got string) {
 			fails = append(fails, failure{"input-modified", fmt.Sprintf("%s: sequence-%d is %s after the call, was %s", src, k+1, after, want)})
 		}
 	}
+	if c.T1 != "" {
+		orig := c.seq1().show()
+		if after := render(top[3]); after != orig {
+			fails = append(fails, failure{"copy-seq-shares-storage", fmt.Sprintf("%s: the copy-seq of sequence-1 taken before the call is %s after the call, was %s", src, after, orig)})
+		}
+		if after := render(top[4]); after != orig {
+			fails = append(fails, failure{"bystander-modified", fmt.Sprintf("%s: a separately built sequence with the same elements is %s after the call, was %s", src, after, orig)})
+		}
+	}
 	return fails, src, got
 }
 
@@ -428,6 +448,10 @@ func seqClass(show string) string {
 	switch {
 	case strings.HasPrefix(show, "#("):
 		return "vector"
+	case strings.HasPrefix(show, "#o("):
+		return "octets"
+	case strings.HasPrefix(show, "#*"):
+		return "bit-vector"
 	case strings.HasPrefix(show, "\""):
 		return "string"
 	case strings.HasPrefix(show, "(") || show == "nil":
@@ -464,15 +488,6 @@ func droppableKey(c *Case) bool {
 	return ok && k.out == ""
 }
 
-func allChars(toks []string) bool {
-	for _, t := range toks {
-		if !strings.HasPrefix(t, "#\\") {
-			return false
-		}
-	}
-	return true
-}
-
 // applyKey gives the equivalent call without :key on sequences whose
 // elements are the keyed elements; ok is false when that is not expressible.
 func applyKey(c *Case) (v Case, ok bool) {
@@ -496,7 +511,7 @@ func applyKey(c *Case) (v Case, ok bool) {
 		v.Item = keyed(c.Key, c.Item)
 	}
 	v.Key = ""
-	if (v.T1 == "string" && !allChars(v.S1)) || (v.T2 == "string" && !allChars(v.S2)) || v.RT == "string" {
+	if !fits(v.T1, v.S1) || !fits(v.T2, v.S2) || v.RT == "string" || v.RT == "octets" {
 		return v, false
 	}
 	return v, true
@@ -552,16 +567,17 @@ func minimise(c Case, kind string) Case {
 	if cur.Init != "" {
 		try(func(v *Case) { v.Init = "" })
 	}
-	if cur.T2 != "" && cur.T2 != cur.T1 && cur.T1 != "" && (cur.T1 != "string" || allChars(cur.S2)) {
+	listOnly2 := specByName[cur.Fn].fam == "set" || specByName[cur.Fn].fam == "map-into" || (specByName[cur.Fn].fam == "map" && cur.Fn != "map")
+	if cur.T2 != "" && cur.T2 != cur.T1 && cur.T1 != "" && !listOnly2 && fits(cur.T1, cur.S2) {
 		try(func(v *Case) { v.T2 = v.T1 })
 	}
-	if cur.T2 != "" && cur.T2 != cur.T1 && cur.T1 != "" && (cur.T2 != "string" || allChars(cur.S1)) {
+	if cur.T2 != "" && cur.T2 != cur.T1 && cur.T1 != "" && !listOnly2 && fits(cur.T2, cur.S1) {
 		try(func(v *Case) { v.T1 = v.T2 })
 	}
-	if cur.T3 != "" && cur.T3 != cur.T1 && cur.T1 != "" && (cur.T1 != "string" || allChars(cur.S3)) {
+	if cur.T3 != "" && cur.T3 != cur.T1 && cur.T1 != "" && !listOnly2 && fits(cur.T1, cur.S3) {
 		try(func(v *Case) { v.T3 = v.T1 })
 	}
-	if cur.RT != "" && cur.RT != cur.T1 && cur.T1 != "" && cur.RT != "nil" && (cur.T1 != "string" || cur.RT == "string") {
+	if cur.RT != "" && cur.RT != cur.T1 && cur.RT != "nil" && (cur.T1 == "list" || cur.T1 == "vector") {
 		try(func(v *Case) { v.RT = v.T1 })
 	}
 	return cur
@@ -636,6 +652,7 @@ func coverAvoidSets(x *fw.Ctx, c *Case) {
 		mark(c.FromEnd == "t", "search/mismatch with :from-end")
 		if c.Fn == "search" {
 			mark(has("string-vs-nonstring"), "search between a string and a list/vector")
+			mark(has("octets-vs-nonoctets"), "search between octets and another sequence type")
 			mark(has("empty1"), "search for an empty pattern")
 		}
 	}
@@ -649,6 +666,9 @@ func coverAvoidSets(x *fw.Ctx, c *Case) {
 	if na := c.nilArgs(); na != "" {
 		x.Cover("minority:empty list as a sequence argument")
 	}
+	if unsupported(c.Fn, c.T1) {
+		x.Cover("minority:sequence type the function rejects (" + c.T1 + ")")
+	}
 }
 
 // ---- the case list ----------------------------------------------------------
@@ -661,28 +681,36 @@ type gridEntry struct {
 
 var (
 	grid    []gridEntry
-	fnTypes []gridEntry // every (function, type)
+	fnTypes []gridEntry // every (function, type) the function accepts
 	seqs3   [][]int     // every sequence of length 0..3 over 4 symbols
 	seqs4   [][]int     // ... 0..4
 )
 
 var gridSeqs = [][]int{{0, 1, 0, 2, 0}, {0, 0, 1}, {1, 0, 1, 0, 3, 2}, {}}
 
-func allSeqs(maxLen int) [][]int {
-	out := [][]int{{}}
+// seqsOver lists every sequence of length lo..hi over the first k symbols.
+func seqsOver(k, lo, hi int) [][]int {
+	var out [][]int
 	prev := [][]int{{}}
-	for l := 1; l <= maxLen; l++ {
+	if lo == 0 {
+		out = append(out, []int{})
+	}
+	for l := 1; l <= hi; l++ {
 		var cur [][]int
 		for _, p := range prev {
-			for e := 0; e < 4; e++ {
+			for e := 0; e < k; e++ {
 				cur = append(cur, append(append([]int{}, p...), e))
 			}
 		}
-		out = append(out, cur...)
+		if lo <= l {
+			out = append(out, cur...)
+		}
 		prev = cur
 	}
 	return out
 }
+
+func allSeqs(maxLen int) [][]int { return seqsOver(4, 0, maxLen) }
 
 func init() {
 	for i := range specs {
@@ -703,13 +731,17 @@ func init() {
 	for i := range specs {
 		sp := &specs[i]
 		for _, typ := range sp.types {
-			fnTypes = append(fnTypes, gridEntry{sp: sp, typ: typ})
+			rejected := unsupported(sp.name, typ)
+			if !rejected {
+				fnTypes = append(fnTypes, gridEntry{sp: sp, typ: typ})
+			}
 			two := sp.fam == "two" || sp.fam == "replace"
 			// knobs reused by families without the keyword: quant/map (key = two
 			// sequences), reduce (test = :initial-value), sort (test = predicate given)
 			keyDim := sp.key || sp.fam == "quant" || sp.fam == "map"
 			testDim := sp.test || sp.fam == "reduce" || sp.fam == "sort" || sp.fam == "dup"
-			for si, s := range gridSeqs {
+			n := 0
+			for _, s := range gridSeqs {
 				for _, b := range opt(sp.bnd, 4) {
 					for _, b2 := range opt(two, 4) {
 						for _, fe := range opt(sp.fromE, 2) {
@@ -717,7 +749,12 @@ func init() {
 								for _, ky := range opt(keyDim, 2) {
 									for _, ts := range opt(testDim, 2) {
 										for rep := 0; rep < 2; rep++ {
-											_ = si
+											// a type the function rejects outright (listed
+											// finding): a handful of cases only
+											if rejected && (8 <= n || b+b2+fe+cnt != 0) {
+												continue
+											}
+											n++
 											grid = append(grid, gridEntry{sp: sp, typ: typ, k: knobs{
 												seq: s, bounds: b, bounds2: b2, fromEnd: fe, count: cnt, key: ky, test: ts,
 												minLen: 0, maxLen: 5,
@@ -734,6 +771,125 @@ func init() {
 	}
 }
 
+// kwEntry is one case of the enumerated-keyword-value blocks: explicit values
+// of :start/:end (and :start2/:end2), :count and :from-end; -1 = absent.
+type kwEntry struct {
+	ft             int16
+	s1, s2         int16
+	start, end     int8
+	start2, end2   int8
+	count          int8
+	fromEnd, pairs bool
+}
+
+type tierPlan struct {
+	enum1  [][]int // sequences of the keyword-value block
+	short1 [][]int // sequences 1 and 2 of the two-sequence bounds block
+	short2 [][]int
+	pairSq [][]int // sequences of the pairs block
+	pairFT []int   // indices into fnTypes
+	reps   int
+	kw     []kwEntry
+}
+
+var (
+	plans    = map[string]*tierPlan{}
+	planLock sync.Mutex
+)
+
+func boundsOf(n int, withAbsent bool) [][2]int {
+	var out [][2]int
+	lo := 0
+	if withAbsent {
+		lo = -1
+	}
+	for s := lo; s <= n; s++ {
+		from := s
+		if from < 0 {
+			from = 0
+		}
+		if withAbsent {
+			out = append(out, [2]int{s, -1})
+		}
+		for e := from; e <= n; e++ {
+			out = append(out, [2]int{s, e})
+		}
+	}
+	return out
+}
+
+func plan(tier string) *tierPlan {
+	planLock.Lock()
+	defer planLock.Unlock()
+	if p := plans[tier]; p != nil {
+		return p
+	}
+	p := &tierPlan{}
+	if tier == "thorough" {
+		p.enum1 = append(seqsOver(3, 0, 3), seqsOver(2, 4, 4)...)
+		p.short1, p.short2 = seqsOver(2, 0, 2), seqsOver(2, 0, 3)
+		p.pairSq, p.reps = seqsOver(3, 0, 3), 4
+	} else {
+		p.enum1 = seqsOver(2, 0, 3)
+		p.short1, p.short2 = seqsOver(2, 0, 1), seqsOver(2, 0, 2)
+		p.pairSq, p.reps = seqsOver(2, 0, 3), 2
+	}
+	for fi, ft := range fnTypes {
+		name, fam := ft.sp.name, ft.sp.fam
+		switch fam {
+		case "item", "if", "dup", "reduce", "fill", "subseq":
+			if !ft.sp.bnd {
+				continue // member, member-if
+			}
+			for si, s := range p.enum1 {
+				n := len(s)
+				counts := []int{-1}
+				if ft.sp.count {
+					for c := 0; c <= n+1; c++ {
+						counts = append(counts, c)
+					}
+				}
+				for _, b := range boundsOf(n, true) {
+					if fam == "subseq" && b[0] < 0 {
+						continue
+					}
+					for _, cnt := range counts {
+						for fe := 0; fe < 2; fe++ {
+							if fe == 1 && !ft.sp.fromE {
+								continue
+							}
+							p.kw = append(p.kw, kwEntry{ft: int16(fi), s1: int16(si), start: int8(b[0]), end: int8(b[1]),
+								start2: -1, end2: -1, count: int8(cnt), fromEnd: fe == 1})
+						}
+					}
+				}
+			}
+		case "two", "replace":
+			for i1, a := range p.short1 {
+				for i2, b := range p.short2 {
+					for _, b1 := range append([][2]int{{-1, -1}}, boundsOf(len(a), false)...) {
+						for _, b2 := range append([][2]int{{-1, -1}}, boundsOf(len(b), false)...) {
+							for fe := 0; fe < 2; fe++ {
+								if fe == 1 && !ft.sp.fromE {
+									continue
+								}
+								p.kw = append(p.kw, kwEntry{ft: int16(fi), s1: int16(i1), s2: int16(i2), start: int8(b1[0]), end: int8(b1[1]),
+									start2: int8(b2[0]), end2: int8(b2[1]), count: -1, fromEnd: fe == 1, pairs: true})
+							}
+						}
+					}
+				}
+			}
+		}
+		switch name {
+		case "search", "mismatch", "replace", "merge", "union", "intersection", "set-difference", "subsetp", "map", "concatenate":
+			p.pairFT = append(p.pairFT, fi)
+		}
+	}
+	plans[tier] = p
+	return p
+}
+
 const (
 	exhReps      = 6
 	exhRepsDeep  = 16
@@ -741,34 +897,48 @@ const (
 	randThorough = 1800000
 )
 
-func sizes(tier string) (nGrid, nExh, nRand int) {
-	nGrid = len(grid)
+// sizes gives the lengths of the blocks: grid, exhaustive sequences,
+// enumerated keyword values, enumerated sequence pairs, seeded.
+func sizes(tier string) [5]int {
+	p := plan(tier)
+	nPairs := len(p.pairFT) * len(p.pairSq) * len(p.pairSq) * p.reps
 	if tier == "thorough" {
-		return nGrid, len(fnTypes) * len(seqs4) * exhRepsDeep, randThorough
+		return [5]int{len(grid), len(fnTypes) * len(seqs4) * exhRepsDeep, len(p.kw), nPairs, randThorough}
 	}
-	return nGrid, len(fnTypes) * len(seqs3) * exhReps, randQuick
+	return [5]int{len(grid), len(fnTypes) * len(seqs3) * exhReps, len(p.kw), nPairs, randQuick}
 }
 
 func nCases(tier string) int {
-	a, b, c := sizes(tier)
-	return a + b + c
+	n := 0
+	for _, k := range sizes(tier) {
+		n += k
+	}
+	return n
+}
+
+func opt8(v int8) *int {
+	if v < 0 {
+		return nil
+	}
+	return ip(int(v))
 }
 
 func gen(r *rand.Rand, i int, tier string) Case {
-	nGrid, nExh, _ := sizes(tier)
+	sz := sizes(tier)
+	free := knobs{bounds: -1, bounds2: -1, fromEnd: -1, count: -1, key: -1, test: -1, minLen: 0, maxLen: 5}
 	switch {
-	case i < nGrid:
+	case i < sz[0]:
 		// seed-independent: every function x type x fixed sequences x keyword presence grid
 		g := grid[i]
 		dr := rand.New(rand.NewPCG(uint64(i), 0xC14))
 		c := genCase(dr, g.sp, g.typ, g.k)
 		c.Block = "grid"
 		return c
-	case i < nGrid+nExh:
+	case i < sz[0]+sz[1]:
 		// seed-independent: every sequence of length 0..3 (thorough 0..4) over the
 		// 4-symbol alphabet for every function and type, keywords drawn from a
 		// generator seeded by the index only
-		j := i - nGrid
+		j := i - sz[0]
 		all, reps := seqs3, exhReps
 		if tier == "thorough" {
 			all, reps = seqs4, exhRepsDeep
@@ -778,13 +948,68 @@ func gen(r *rand.Rand, i int, tier string) Case {
 		s := all[j%len(all)]
 		ft := fnTypes[j/len(all)]
 		dr := rand.New(rand.NewPCG(uint64(i), uint64(0xE14+rep)))
-		c := genCase(dr, ft.sp, ft.typ, knobs{seq: s, bounds: -1, bounds2: -1, fromEnd: -1, count: -1, key: -1, test: -1, minLen: 0, maxLen: 5})
+		k := free
+		k.seq = s
+		c := genCase(dr, ft.sp, ft.typ, k)
 		c.Block = "exhaustive"
+		return c
+	case i < sz[0]+sz[1]+sz[2]:
+		// seed-independent: every in-range :start/:end pair (absent included), every
+		// :count 0..length+1 and both :from-end values on short sequences; :key,
+		// :test and items drawn from a generator seeded by the index only
+		p := plan(tier)
+		e := p.kw[i-sz[0]-sz[1]]
+		ft := fnTypes[e.ft]
+		dr := rand.New(rand.NewPCG(uint64(i), 0xA14))
+		k := knobs{bounds: 0, bounds2: 0, fromEnd: 0, count: 0, key: -1, test: -1, minLen: 0, maxLen: 3}
+		if e.pairs {
+			k.seq, k.seq2 = p.short1[e.s1], p.short2[e.s2]
+		} else {
+			k.seq = p.enum1[e.s1]
+		}
+		c := genCase(dr, ft.sp, ft.typ, k)
+		c.Start, c.End, c.EndNil = opt8(e.start), opt8(e.end), false
+		c.Start2, c.End2 = opt8(e.start2), opt8(e.end2)
+		c.Count, c.CntNil = opt8(e.count), false
+		c.FromEnd = ""
+		if e.fromEnd {
+			c.FromEnd = "t"
+		} else if ft.sp.fromE && i%2 == 1 {
+			c.FromEnd = "nil"
+		}
+		if c.Fn == "reduce" {
+			lo, hi := bounds(len(c.S1), c.Start, c.End)
+			if lo == hi && c.Init == "" && c.Pred != "+" {
+				c.Pred = "list2"
+			}
+		}
+		c.Block = "keyword-values"
+		return c
+	case i < sz[0]+sz[1]+sz[2]+sz[3]:
+		// seed-independent: both sequences of the two-sequence functions enumerated
+		p := plan(tier)
+		j := i - sz[0] - sz[1] - sz[2]
+		j /= p.reps
+		n := len(p.pairSq)
+		s2 := p.pairSq[j%n]
+		j /= n
+		s1 := p.pairSq[j%n]
+		ft := fnTypes[p.pairFT[j/n]]
+		dr := rand.New(rand.NewPCG(uint64(i), 0xB14))
+		k := free
+		k.seq, k.seq2 = s1, s2
+		if ft.sp.fam == "map" {
+			k.key = 1 // two sequences
+		}
+		c := genCase(dr, ft.sp, ft.typ, k)
+		c.Block = "pairs"
 		return c
 	}
 	// seeded: longer sequences (4..8), everything drawn at random
 	ft := fnTypes[r.IntN(len(fnTypes))]
-	c := genCase(r, ft.sp, ft.typ, knobs{bounds: -1, bounds2: -1, fromEnd: -1, count: -1, key: -1, test: -1, minLen: 4, maxLen: 8})
+	k := free
+	k.minLen, k.maxLen = 4, 8
+	c := genCase(r, ft.sp, ft.typ, k)
 	c.Block = "seeded"
 	return c
 }
@@ -792,15 +1017,21 @@ func gen(r *rand.Rand, i int, tier string) Case {
 func init() {
 	fw.Register(fw.Spec[Case]{
 		ID: "C14",
-		Rule: "one call of one of 58 sequence functions per case: function x sequence type(s) (list, vector, string) x element flavour (integers, symbols, symbols with nil, " +
-			"characters, tagged conses, alist pairs; 4-symbol alphabets) x keyword combination (:start :end :key :test :count :from-end, :start2/:end2, :initial-value, " +
-			"result type, keyword order) with in-range bounds. Block 1 (seed-independent): every function x type x 4 fixed sequences x every presence combination of " +
-			"bounds/from-end/count/key/test. Block 2 (seed-independent): every sequence of length 0..3 (thorough: 0..4) over the alphabet for every function x type, " +
-			"keywords drawn per index. Block 3 (seeded): sequences of length 4..8, everything random. distinct = distinct case; every case is non-trivial (the language " +
-			"pins the result). A failing case is reduced (keywords dropped, :key applied to the data, sequence types made uniform) before its signature is taken. " +
-			"Kept in a minority of cases because they are listed open findings: :from-end of search/mismatch, search between a string and a non-string, " +
-			"explicit bounds equal to the length in fill/replace/mismatch, reduce of an empty range without :initial-value. Not generated: :test-not and the -if-not variants other than assoc-if-not (slip does not have them), " +
-			"octets, eql on symbols, floor inside :key lambdas, negative integers under oddp/evenp (defects of other properties).",
+		Rule: "one call of one of 58 sequence functions per case: function x sequence type(s) (list, vector, string, octets, bit-vector) x element flavour (integers, symbols, " +
+			"symbols with nil, characters, tagged conses, alist pairs, bits; 4-symbol alphabets) x keyword combination (:start :end :key :test :count :from-end, :start2/:end2, " +
+			":initial-value, result type, keyword order) with in-range bounds. Seed-independent blocks: (grid) every function x type x 4 fixed sequences x every presence " +
+			"combination of bounds/from-end/count/key/test; (exhaustive) every sequence of length 0..3 (thorough 0..4) over the 4-symbol alphabet for every function x type, " +
+			"keywords drawn per index; (keyword-values) for every function with :start/:end, every sequence of length 0..3 over 2 symbols (thorough: 0..3 over 3 symbols and " +
+			"length 4 over 2) x every in-range :start/:end pair incl. absent x every :count absent,0..length+1 x both :from-end values, and for search/mismatch/replace " +
+			"every bounds quadruple on short sequence pairs; (pairs) both sequences of search mismatch replace merge union intersection set-difference subsetp map " +
+			"concatenate enumerated over lengths 0..3 (2 symbols, thorough 3 symbols). Seeded block: sequences of length 4..8, everything random. Every case also holds two " +
+			"bystanders (a copy-seq of the first sequence taken before the call and a separately built equal sequence) that must be unchanged afterwards. " +
+			"distinct = distinct case; every case is non-trivial (the language pins the result). A failing case is reduced (keywords dropped, :key applied to the data, " +
+			"sequence types made uniform) before its signature is taken. Kept in a minority of cases because they are listed open findings: :from-end of search/mismatch, " +
+			"search between a string or octets and another sequence type, explicit bounds equal to the length in fill/replace/mismatch, reduce of an empty range without " +
+			":initial-value, sequence types a function rejects outright (bit-vectors in find position remove delete substitute remove-duplicates search sort; octets in " +
+			"substitute and sort: a handful of grid cases each). Not generated: :test-not and the -if-not variants other than assoc-if-not (slip does not have them); " +
+			"numeric or equality functions applied to bits, plusp on octets, floor inside :key lambdas, negative integers under oddp/evenp (defects of other properties).",
 		N:     nCases,
 		Gen:   gen,
 		Exec:  exec,
@@ -808,7 +1039,7 @@ func init() {
 		Assumptions: []string{
 			"the reference implementations in internal/c14/oracle.go are the language definition (ANSI CL 17.2/17.3, 14.2, 15.2) with slip's documented dialect: default test equal, strings immutable (fill/replace return a copy), optional sort predicate",
 			"element constructors (list, vector, cons), lambda and the builtin tests/keys used as arguments (eql equal = < char= char-equal car cdr 1+ char-code ...) work; they are observed by other checks",
-			"results are rendered by the harness's own printer (sl.Show)",
+			"results are rendered by the harness's own printer (sl.Show; elements of octets and bit-vectors as the integers they are)",
 		},
 	})
 }
